@@ -218,15 +218,25 @@ func c0910(args []string) error {
 					{"A.Within(B)", 4, func() bool { return va.Within(vb) }},
 					{"B.Contains(A)", 4, func() bool { return vb.Contains(va) }},
 				}
-				for _, c := range calls {
+				var reals [6]string
+				for ci, c := range calls {
 					atomic.AddInt64(&evals, 1)
 					got, out := guarded(c.fn)
+					reals[ci] = fmt.Sprint(got, out)
 					exp := l1&c.bit != 0
 					if out == "ok" && got == exp {
 						continue
 					}
 					atomic.AddInt64(&mism, 1)
 					ev.Emit(obj{"op": "rel", "call": c.name, "A": A.tree.JSON(), "B": B.tree.JSON(), "got": got, "out": out, "exp": exp, "l2": l2&c.bit != 0, "a": r.a, "b": bi + 1})
+				}
+				// the dualities relate the real answers to each other, whatever L1 says: A.Intersects(B) = B.Intersects(A),
+				// A.Contains(B) = B.Within(A), A.Within(B) = B.Contains(A)
+				for k := 0; k < 6; k += 2 {
+					if reals[k] != reals[k+1] {
+						atomic.AddInt64(&mism, 1)
+						ev.Emit(obj{"op": "dual", "calls": calls[k].name + " / " + calls[k+1].name, "A": A.tree.JSON(), "B": B.tree.JSON(), "r1": reals[k], "r2": reals[k+1]})
+					}
 				}
 			}
 		}()
